@@ -157,7 +157,9 @@ def frameStep (fuel : Nat) (id : Nat) (mu : R) (A : Affine) (l : FrameLocal) (st
     (setFormSt fuel l.s l.oldForm).map (fun s' => { l with s := s' })
   else none
 
-/-- `sv.frame = f` -/
+/-- `sv.frame = f`.  The covariance tail of the setter (`if self.cov is not None and self.cov.frame == old_frame: …`, with
+its branch that puts coordinates and frame back when the covariance cannot follow) is unreachable for this machine: its
+objects carry no covariance (`St` has no such field); the extractor checks the guard and refuses an unknown tail. -/
 def setFrameSt (fuel : Nat) (s : St) (id : Nat) (mu : R) (A : Affine) : Option St :=
   if id = s.frame then some s   -- `if new_frame != self.frame`
   else (runSteps (frameStep fuel id mu A) Generated.frameSetterSteps ⟨s, s.form, none⟩).map (·.s)
